@@ -2,10 +2,10 @@
    (Gen/GenAstTable.v) and the explicit list of excluded (derived) fields.  Model only: this
    file must compile even when the regenerated table no longer passes [table_complete], because
    the failing-input search runs the extracted [gen_gaps]. *)
-From Coq Require Import String List Bool NArith.
+From Coq Require Import List Bool NArith.
 From Storage Require Import Base.Bytes Ast.AstTable Ast.Visitor Gen.GenAstTable.
 Import ListNotations.
-Open Scope string_scope.
+Open Scope name_scope.
 
 (* Fields that Accept does not look at on purpose, each with the child field under which the
    same symbols occur.  ast/node_convert.go, SetFunctionNode.MoveUpTree / specializeSetAnyOf:
@@ -29,4 +29,4 @@ Definition gen_validate : list sym -> list sym -> tree -> verdict := validate ge
 Definition gen_table_complete : bool := table_complete gen_table gen_aliases.
 Definition gen_gaps : list gap := table_gaps gen_table gen_aliases.
 Definition gen_validator_ok : bool := validator_ok GenAstTable.validator.
-Definition gen_kind_names : list string := map k_name gen_table.
+Definition gen_kind_names : list name := map k_name gen_table.
